@@ -11,7 +11,7 @@ use miniscript::iter::{Tree, TreeLike};
 use pest::Parser;
 use pest_derive::Parser;
 
-use crate::error::{Error, RichError, Span, WithFile, WithSpan};
+use crate::error::{Error, Position, RichError, Span, WithFile, WithSpan};
 use crate::impl_eq_hash;
 use crate::num::NonZeroPow2Usize;
 use crate::pattern::Pattern;
@@ -825,6 +825,15 @@ impl<A: PestParse> ParseFromStr for A {
             .map_err(RichError::from)
             .with_file(s)?;
         let pair = pairs.next().unwrap();
+        // Rules other than `program` do not end in EOI: reject input that continues after the parsed part
+        let rest_start = pair.as_span().end();
+        if !s[rest_start..].trim().is_empty() {
+            let (line, col) = pair.as_span().end_pos().line_col();
+            let span = Span::new(Position::new(line, col), Position::new(line, col + 1));
+            return Err(Error::Grammar("unexpected input after the end".to_string()))
+                .with_span(span)
+                .with_file(s);
+        }
         A::parse(pair).with_file(s)
     }
 }
